@@ -854,3 +854,58 @@ pub fn sched_strategy(controlled: bool, max_choices: usize) -> BoxedStrategy<Sch
         .boxed()
     }
 }
+
+// ---------------------------------------------------------------------------------------------
+// records that hit an exact number of distinct canonical k-mers (255, 256, 257, 1023, 1024, 1025 ...): lists of
+// touched columns, sparse resets and small hash tables change their behaviour at such counts
+
+pub const DISTINCT_TARGETS: &[usize] = &[255, 256, 257, 511, 512, 513, 1023, 1024, 1025, 2047, 2048];
+
+/// a pseudo-random nucleotide sequence grown base by base until it contains exactly `target` distinct canonical
+/// k-mers (None when k is too small for that many)
+pub fn seq_with_distinct(k: usize, target: usize, seed: u64) -> Option<Vec<u8>> {
+    if k == 0 || k > 31 {
+        return None;
+    }
+    let columns = if k >= 12 { usize::MAX } else { (1usize << (2 * k)) / 2 };
+    if target == 0 || (target as f64) > 0.8 * columns as f64 {
+        return None;
+    }
+    let mask = if k == 32 { u64::MAX } else { (1u64 << (2 * k)) - 1 };
+    let (mut f, mut r) = (0u64, 0u64);
+    let mut seen = std::collections::HashSet::new();
+    let mut out = Vec::new();
+    let mut s = seed;
+    while seen.len() < target && out.len() < 200_000 {
+        s = crate::util::splitmix(s);
+        let b = (s >> 33) & 3;
+        out.push(CLEAN[b as usize]);
+        f = ((f << 2) | b) & mask;
+        r = (r >> 2) | ((3 - b) << (2 * (k - 1)));
+        if out.len() >= k {
+            seen.insert(f.min(r));
+        }
+    }
+    if seen.len() == target {
+        Some(out)
+    } else {
+        None
+    }
+}
+
+/// replaces the sequence of one record (not the last one when there are several) by such a sequence
+pub fn plant_distinct(recs: &mut Vec<Rec>, k: usize, pick: u16, seed: u64) -> Option<usize> {
+    let cands: Vec<usize> = DISTINCT_TARGETS.iter().copied().filter(|&t| seq_with_distinct(k, t, 1).is_some()).collect();
+    if cands.is_empty() {
+        return None;
+    }
+    let target = cands[crate::util::idx16(pick, cands.len())];
+    let seq = seq_with_distinct(k, target, seed)?;
+    if recs.is_empty() {
+        recs.push(Rec { id: "distinct".into(), desc: None, seq: Bytes(seq) });
+    } else {
+        let i = crate::util::idx16(pick.rotate_left(7), recs.len().saturating_sub(1).max(1));
+        recs[i].seq = Bytes(seq);
+    }
+    Some(target)
+}
